@@ -323,7 +323,8 @@ Lemma receivedAck_spec T st o rs l now :
 Proof.
   intros [B G] Hl Hlive Hne. unfold receivedAck. rewrite (get_space_slot st l Hl).
   destruct (sget st (slot_of l)) as [s0|] eqn:Hs0; [|congruence].
-  destruct (ack_largest rs >? spLargestSent s0); [cbn; apply Acct_of_Pres; apply Pres_refl; exact B|].
+  destruct ((ack_largest rs >? spLargestSent s0) || ((l =? sph_EncInitial) && (ack_lowest rs <? sIPN st)));
+    [cbn; apply Acct_of_Pres; apply Pres_refl; exact B|].
   set (st_a := if sClient st && negb (sPCAV st) && ((l =? sph_EncHandshake) || (l =? sph_Enc1RTT))
                then setTimer (st_flags st true (sPAV st) (sConf st)) o now else st).
   assert (Aa : AckR T st st_a 0 (fun _ => 0)).
